@@ -430,7 +430,7 @@ func newRun(eng *Engine, ts *TermStore, sol *Solver, h *ssa.Function, prefix []i
 		globals: map[*ssa.Global]*Object{}, rtypes: map[types.Type]*Object{}, strLits: map[string]*Object{},
 		reached: map[string]bool{}, unwind: unwind, maxDepth: 200, allocMax: 64,
 		locks: map[lockKey]int{}, poolItems: map[lockKey][]Value{}, dates: map[[2]int]*dateFields{},
-		flags: map[string]int64{}, fnSeen: map[string]bool{}, fconv: map[[2]int]*Term{}, ufMemo: map[string]*Term{}, formats: map[[2]int]Str{},
+		flags: map[string]int64{}, fnSeen: map[string]bool{}, fconv: map[[2]int]*Term{}, ufMemo: map[string]*Term{}, formats: map[[2]int]Str{}, initOK: map[*ssa.Package]bool{},
 	}
 	return r
 }
